@@ -63,4 +63,24 @@ Theorem split_nick_sequential i s c nick msg :
   c_auth c = false -> split_nick i s s c nick = process_nick cfg verify i s c nick msg.
 Proof. intros A. unfold split_nick, process_nick. rewrite A. reflexivity. Qed.
 
+(* linearisation points of the split handler: if the look-up found the nick free and it is still
+   free at commit time, the whole handler is the sequential one executed at commit time; if the
+   look-up found it taken, the handler answers 433 and touches nothing - the sequential one executed
+   at look-up time *)
+Theorem split_nick_linearises_at_commit i s_check s_commit c nick msg :
+  c_auth c = false -> users s_check !! nick = None -> users s_commit !! nick = None ->
+  split_nick i s_check s_commit c nick = process_nick cfg verify i s_commit c nick msg.
+Proof. intros A H1 H2. unfold split_nick, process_nick. rewrite A, H1, H2. reflexivity. Qed.
+
+Theorem split_nick_linearises_at_check i s_check s_commit c nick msg x :
+  c_auth c = false -> users s_check !! nick = Some x ->
+  (exists r, split_nick i s_check s_commit c nick = Ok r /\ h_sh r = s_commit /\ h_conn r = c) /\
+  (exists r, process_nick cfg verify i s_check c nick msg = Ok r /\ h_sh r = s_check /\ h_conn r = c).
+Proof.
+  intros A H1. unfold split_nick, process_nick. rewrite A, H1. cbn [negb]. split; eexists; (split; [reflexivity|]); cbn; auto.
+Qed.
+
+(* the remaining case - free at look-up, taken at commit - is the registration race itself: the
+   commit refuses (C18_registration_window_safe), nobody gets a nick twice *)
+
 End conc.
